@@ -1,0 +1,10 @@
+//go:build verif
+
+package postprocessor
+
+import "github.com/internetarchive/Zeno/pkg/models"
+
+// PostprocessItemForVerif runs the post-processing of one archived item (extractor dispatch included).
+func PostprocessItemForVerif(item *models.Item) []*models.Item {
+	return postprocessItem(item)
+}
